@@ -5,6 +5,7 @@
 import BufrModel.Coder.Regs
 import BufrModel.Gen.PyCoder
 import BufrModel.Lemmas.CoderSrc
+import BufrModel.Lemmas.CoderOpSrc
 set_option linter.unusedSimpArgs false
 namespace Bufr
 open PyGen.coder
@@ -86,5 +87,49 @@ theorem C07_src_recall_bitmap (φ : D → Elem) (ps : CoderState.Self D V) :
   · simp [CoderState.recall_bitmap, h, Py.iterOpt, bind, Except.bind]
   · simp [CoderState.recall_bitmap, h, Py.iterOpt, bind, Except.bind, pure, Except.pure]
   · simp [regsOf, h]
+
+/-- **`add_bitmap_link` is the model's `nextBitmapped` followed by `addLink`** (the step the model performs for a
+    class-33 element under 222000 and for every marker operator).  For every Python record `ps` that stands for the
+    registers of a model state `s`: both fail — the iterator attribute is `None` (`TypeError`: no bitmap defined
+    yet) or exhausted (`StopIteration`), which the model maps to `other`, both accidental exceptions — or both
+    return: the item taken is the same through the representation (`owner = i.toNat`, `e = φ d`), the iterator
+    advances by one item in both (`Rep` again), the Python record gets the dictionary entry
+    `bitmap_links[len(decoded_descriptors)] = i` (the model's `addLink` conses `(descs.length, owner)`), and
+    nothing else changes on either side. -/
+theorem C07_src_add_bitmap_link (φ : D → Elem) (ps : CoderState.Self D V) (s : St) (h : Rep φ ps s.regs) :
+    match CoderState.add_bitmap_link ps, nextBitmapped s with
+    | .ok ps', .ok ((owner, e), s2) =>
+      ∃ i d rest, ps.next_bitmapped_descriptor = some ((i, d) :: rest) ∧ owner = i.toNat ∧ e = φ d ∧
+        ps' = { ps with next_bitmapped_descriptor := some rest,
+                        bitmap_links := Py.dictSetItem ps.bitmap_links (ps.decoded_descriptors.length : Nat) i } ∧
+        Rep φ ps' s2.regs ∧ s2.data = s.data
+    | .error e, .error e' => excClass e = e'
+    | _, _ => False := by
+  obtain ⟨hwf, nr, hr, href⟩ := h
+  have hit : s.regs.bmIter = ps.next_bitmapped_descriptor.map (pairsOf φ) := by rw [hr]; rfl
+  cases hn : ps.next_bitmapped_descriptor with
+  | none =>
+    simp [CoderState.add_bitmap_link, nextBitmapped, hn, hit, Py.callNext, excClass, bind, Except.bind]
+  | some l =>
+    cases l with
+    | nil =>
+      simp [CoderState.add_bitmap_link, nextBitmapped, hn, hit, Py.callNext, excClass, bind, Except.bind, pairsOf]
+    | cons p rest =>
+      obtain ⟨i, d⟩ := p
+      simp only [CoderState.add_bitmap_link, nextBitmapped, hn, hit, Py.callNext, bind, Except.bind, pure, Except.pure,
+        pairsOf, Option.map, List.map]
+      refine ⟨i, d, rest, rfl, rfl, rfl, rfl, ⟨?_, nr, ?_, href⟩, rfl⟩
+      · exact hwf
+      · simp only [St.setRegs]
+        rw [hr]
+        simp [regsOf, pairsOf]
+
+/-- the hypothesis is satisfiable, with a bitmapped descriptor waiting -/
+example : ∃ (ps : CoderState.Self Nat Nat) (s : St), Rep (fun _ => default) ps s.regs ∧
+    ps.next_bitmapped_descriptor = some [(0, 7)] :=
+  ⟨{ freshOver ⟨false, 1, 0, [[]], [[]], [[]], [], [], [], 0, 5, 5, 5, [(1, 1)], [2], 3, ⟨1, 1, 1⟩, 4, 5, 2, some [], some [], 5,
+      true, 7, some [], 3, some []⟩ with next_bitmapped_descriptor := some [(0, 7)] },
+   { regs := { bmIter := some [(0, default)] } }, ⟨by simp [WF, freshOver, bsrOf], [], by simp [regsOf, freshOver, pairsOf, qaOfTag, bitmapDefOfTag,
+      QA_INFO_NA, QA_INFO_WAITING, QA_INFO_PROCESSING, BITMAP_NA, BITMAP_INDICATOR, BITMAP_WAITING_FOR_BIT, BITMAP_BIT_COUNTING], refRel_nil⟩, rfl⟩
 
 end Bufr
